@@ -654,6 +654,11 @@ SHAPES = [
     ("write+gen", ("gen",), [b"xyz"], b"pre", {}),
     ("write only", ("gen",), [], b"written", {}),
     ("write+list1", ("sized", 1), [b"tail"], b"pre", {"has_close": False}),
+    # added with the widened C03 frame theorems: write(b"") sends the head; write() before a file wrapper
+    # (seekable: iterated, not handed over -- fix 5ee3173; non-seekable: iterated in blocks)
+    ("write empty+gen", ("gen",), [b"", b"xyz"], b"", {}),
+    ("write+fileS", ("file", True), [b"abcd", b"ef"], b"pre", {"block_size": 4}),
+    ("write+fileN", ("file", False), [b"abcd", b"ef"], b"pre", {"block_size": 4}),
 ]
 
 
@@ -665,7 +670,7 @@ def table_case(head, version, conn, status, clmode, shape, cclose=False):
         n = {"exact": total, "larger": total + 3, "smaller": max(total - 2, 0), "zero": 0}[clmode]
         hs.append(("Content-Length", str(n)))
     call = [S(status, hs)]
-    if wr:
+    if wr is not None:
         call.append(W(wr))
     kw = {"has_close": True}
     kw.update(extra)
